@@ -185,6 +185,8 @@ def coq_op(op, enc):
         return "SApplyNext %s %s" % (cstr(op[1]), "true" if n == "catch_up" else "false")
     if n == "log":
         return "SLog"
+    if n == "conn":
+        return "SConn %s" % cstr(op[1])
     raise ValueError("unknown op " + n)
 
 
@@ -320,10 +322,13 @@ def canon_impl(op, o):
     r = o["r"]
     if n in MSG_OPS:
         ans = sorted([[a[0], a[1]] for a in o["ans"]], key=lambda x: x[0])
+        ntf = None
+        if o.get("ntf") is not None:
+            ntf = sorted([[x[1], x[0]] for x in o["ntf"]])      # [key, client] pairs delivered on the streams
         changed = None
         if n == "sub" and isinstance(r, dict) and r.get("changed"):
             changed = r["changed"]
-        return {"ans": ans, "ntf": None, "changed": changed, "status": r if n != "sub" else "ok"}
+        return {"ans": ans, "ntf": ntf, "changed": changed, "status": r if n != "sub" else "ok"}
     if n == "hist":
         if not isinstance(r, dict):
             return r
@@ -336,12 +341,12 @@ def canon_impl(op, o):
         return r
     if n == "alloc":
         return r
-    if n in ("node", "restart", "load", "set_last_id"):
+    if n in ("node", "restart", "load", "set_last_id", "conn"):
         return "ok" if r == "ok" else r
     return r
 
 
-def same(op, m, i):
+def same(op, m, i, conns=None):
     """compare canonical model and implementation outputs of one op; returns None or a description"""
     n = op[0]
     if n in MSG_OPS:
@@ -351,6 +356,12 @@ def same(op, m, i):
             return "listener answers differ: model %r impl %r" % (m["ans"], i["ans"])
         if (m["changed"] or None) != (i["changed"] or None):
             return "Subscribe result differs: model %r impl %r" % (m["changed"], i["changed"])
+        if conns is not None and i["ntf"] is not None:
+            # NotifyConfig(key, clients) of the model vs ConfigChangeNotifyRequest payloads that reached
+            # the connected clients' streams
+            want = sorted([k, c] for k, cs in m["ntf"] for c in cs if c in conns)
+            if want != i["ntf"]:
+                return "subscriber notifications differ: model %r delivered %r" % (want, i["ntf"])
         return None
     if n == "get":
         if m is None or i is None:
